@@ -228,7 +228,17 @@ impl Prop for C17 {
                 probes.push(a.iter().zip(pks[1].chars()).enumerate().map(|(i, (x, y))| if i % 2 == 0 { *x } else { y }).collect());
                 for pr in probes { if pks.contains(&pr) { continue; } if let Ok(e) = EncodedPk::try_from(pr.as_str()) { if let Some(n) = kr.get_name_from_key(&e) { o.oracle_fail = Some(("lookup-by-key-exact".into(), format!("get_name_from_key finds {:?} for the key string {} which no entry has", n, pr))); return o; } } }
                 for k in 0..3 { if kr.get_key(names[k]).map(|x| x.public_key.as_str().to_string()) != Some(pks[k].clone()) || kr.get_name_from_key(&EncodedPk::try_from(pks[k].as_str()).unwrap()).as_deref() != Some(names[k]) { o.oracle_fail = Some(("lookup-finds-entry".into(), format!("entry {} is not found by its own name / key", k))); return o; } }
-                o.impl_obs = "near-miss names and keys find nothing; exact ones find their entry".into();
+                // names that are prefixes / case variants / extensions of one another are distinct names: each finds its own entry, in any order
+                let fam = ["al", "alice", "Alice", "alice smith", "ALICE", "alice  smith"];
+                let fpks: Vec<String> = (0..fam.len()).map(|_| enc_pk(&rng.bytes(32))).collect();
+                let mut order: Vec<usize> = (0..fam.len()).collect(); for i in (1..order.len()).rev() { let j = rng.below(i + 1); order.swap(i, j); }
+                let ftext: String = order.iter().map(|&k| format!("[Key]\nName = {}\nPublicKey = {}\n", fam[k], fpks[k])).collect();
+                match Keyring::new(&ftext) {
+                    Err(e) => { o.oracle_fail = Some(("distinct-names-accepted".into(), format!("a keyring whose names are {:?} (all different) is rejected: {}", fam, e))); return o; }
+                    Ok(fkr) => { for k in 0..fam.len() { let got = fkr.get_key(fam[k]).map(|x| x.public_key.as_str().to_string());
+                        if got != Some(fpks[k].clone()) { o.oracle_fail = Some(("lookup-finds-own-entry".into(), format!("keyring with the names {:?} in file order {:?}: get_key({:?}) returns {}", fam, order, fam[k], match got { None => "nothing".to_string(), Some(p) => format!("the entry of {:?}", fam[fpks.iter().position(|q| *q == p).unwrap_or(0)]) }))); return o; } } }
+                }
+                o.impl_obs = "near-miss names and keys find nothing; exact ones find their entry, also among names that are prefixes or case variants of one another".into();
             }
             "pklen" => {
                 // an encoded public key is usable only as 32 key bytes + the 4 matching checksum bytes: blobs of every other length must be unusable
